@@ -59,6 +59,35 @@ def systematic():
     return out
 
 
+def multi_file_cases():
+    """two schema files in one run, each with its own definition of the same name used inside allOf (also referencing it plainly runs into the recorded finding C01-alias-collides): the required
+    keys of each file's own definition are enforced, in both argument orders"""
+    from vlib.kitchen import Case
+
+    def mk(i, req):
+        meta = {"type": "object", "properties": {k: {"type": "string"} for k in ("id", "createdBy", "note")}, "required": req}
+        return {"$id": "http://x/" + i, "type": "object", "$defs": {"Meta": meta},
+                "properties": {"meta": {"allOf": [{"$ref": "#/$defs/Meta"}, {"type": "object", "properties": {"n": {"type": "integer"}}}]}},
+                "required": ["meta"]}
+    order, invoice = mk("order", ["id"]), mk("invoice", ["id", "createdBy"])
+    docs = []
+    for t, req in (("Order", ["id"]), ("Invoice", ["id", "createdBy"])):
+        full = {"id": "i", "createdBy": "me", "note": "x"}
+        docs.append({"doc": {"meta": full}, "cls": "valid", "path": (), "t": t, "expect": "ACC"})
+        for where in ("meta",):
+            for k in ("id", "createdBy", "note"):
+                d = {kk: vv for kk, vv in full.items() if kk != k}
+                doc = {"meta": full}
+                doc[where] = d
+                docs.append({"doc": doc, "cls": "required" if k in req else "optional-absent", "path": (where, k), "t": t, "expect": "REJ" if k in req else "ACC"})
+    out = []
+    maps = [("http://x/order", "Order"), ("http://x/invoice", "Invoice")]
+    import copy
+    out.append(Case("c04mf0", order, copy.deepcopy(docs), fam="multi-file", extra_files={"invoice.json": json.dumps(invoice)}, argv=["s.json", "invoice.json"], mappings=maps, no_model=True))
+    out.append(Case("c04mf1", order, copy.deepcopy(docs), fam="multi-file", extra_files={"invoice.json": json.dumps(invoice)}, argv=["invoice.json", "s.json"], mappings=maps, no_model=True))
+    return out
+
+
 CLASSES = {"required", "required-default", "optional-absent", "null-allowed", "valid"}
 
 
@@ -74,7 +103,20 @@ def run(ctx):
         for d in c.docs:
             if d["cls"] == "required-default":
                 d["cls"] = "required-default"
-    run_cases(ctx, cases, "c04")
+    mf = multi_file_cases()
+    run_cases(ctx, cases + mf, "c04")
+    for c in mf:
+        if not c.build_ok:
+            ctx.violation("oracle", dict(c.replay_obj(), gen_err=c.gen_err, build_err=c.build_err), "multi-file case: generation failed or does not build: %s" % (c.gen_err or c.build_err)[:300])
+            continue
+        ctx.cov["programs"] += 1
+        for di, d in enumerate(c.docs):
+            o = d.get("obs") or {}
+            ctx.count({"s": c.argv, "d": d["doc"], "t": d["t"]}, True, "required properties/multi-file")
+            if o.get("v") != d["expect"]:
+                ctx.violation("oracle", c.replay_obj(di), "files %s, type %s: document %s (%s at %s) should be %s, was %s %s"
+                              % (c.argv, d["t"], json.dumps(d["doc"]), d["cls"], "/".join(d["path"]), d["expect"], o.get("v"), o.get("err", "")[:120]))
+                break
     for c in cases:
         for d in c.docs:
             if d["cls"] == "required-default" and d.get("valid") is not None:
